@@ -52,6 +52,7 @@ TEMPLATES = [
     'W', 'W x', 'W #', '# W', 'W \'q\' "d"', 'W ] ) }', 'W [ ( {', 'W, x,', 'W \\', '  W', 'W  ', 'W   x y', 'W\tx', 'W\nx', 'W\n\nx', '\nW', 'W\n',
     'W\rx', 'W\x0bx', 'W\x0cx', 'W\x1cx', 'W\x85x', 'W x', 'W' + 'z' * 100, 'W ' + ' '.join('w%d' % i for i in range(30)),
     'W """ x', "W ''' x", 'W \xe9 中', 'W\\n', 'W: x = 1', 'W\n  indented\n    more', 'W \x1f x', ' ', 'W\n \nx', 'W,', 'W )  # x',
+    'W\t', 'W\n\t\nx', '\tW', 'W \t ', 'W\x0b', 'W x\xa0', 'W\t\nx\t',
 ]
 TRAILABLE = ('list', 'tuple', 'set', 'dict')
 
